@@ -278,6 +278,12 @@ def run(ctx):
                 if not pol:
                     g = g_not(g)
                 items = g.a if g.kind == "and" else (g,)
+                # the element-wise form: (|by - <selected heights>| >= H).all() - a comparison of the whole column, true when it holds at every position
+                vec_a = canon_sign(anf.f_abs(by - sel.items[1]) - H0, OPS[">="])
+                vec_b = canon_sign(anf.f_abs(by - sel.items[1]) - H0, OPS[">"])
+                for x_ in items:
+                    if x_.kind == "sign" and x_.a.is_array() and (g_equiv(x_, vec_a) or g_equiv(x_, vec_b)):
+                        good = True
                 for x_ in items:
                     if x_.kind == "atom" and isinstance(x_.a, tuple) and x_.a and x_.a[0] == "quantified":
                         kind_, itv, elem, cond = ev.comp_registry[x_.a[1]]
@@ -396,13 +402,32 @@ def run(ctx):
         args[p] = ev3.symbol(p)
     out = ev3.eval_function(fk, args)
     val = out.value()
-    good = False
-    if isinstance(val, Rat):
-        for at in val.all_atoms():
-            if at.kind == "fn" and at.name == "call:zmethod.map_index":
-                amap = dict(zip(at.extra or (), at.args))
-                if amap.get("a") is not None and amap["a"].equals(p2.items[0]) and any(x.name == "call:zmethod.getPoints" for x in amap.get("b", C(0)).all_atoms()):
-                    good = True
+    def _mapped(v):
+        if isinstance(v, Rat):
+            for at in v.all_atoms():
+                if at.kind == "fn" and at.name == "call:zmethod.map_index":
+                    amap = dict(zip(at.extra or (), at.args))
+                    if amap.get("a") is not None and amap["a"].equals(p2.items[0]) and any(x.name == "call:zmethod.getPoints" for x in amap.get("b", C(0)).all_atoms()):
+                        return True
+        return False
+
+    def _empty(v):
+        if isinstance(v, Vec):
+            return len(v.items) == 0
+        a_ = single_atom(v) if isinstance(v, Rat) else None
+        return a_ is not None and a_.name in ("np.empty", "np.zeros", "np.array", "np.asarray") and len(a_.args) >= 1 and \
+            (a_.args[0].is_zero() or (single_atom(a_.args[0]) is not None and single_atom(a_.args[0]).name == "vec" and not single_atom(a_.args[0]).args))
+
+    def _no_selection(g):
+        # the case is taken only when getPoints selected nothing: mapping an empty selection gives an empty index array
+        for x in (g.a if g.kind == "and" else (g,)):
+            if x.kind == "sign" and x.b == OPS["=="]:
+                la = single_atom(x.a)
+                if la is not None and la.name == "len" and any(t.name == "call:zmethod.getPoints" for t in la.args[0].all_atoms()):
+                    return True
+        return False
+    live = [(g, v) for g, v in cases_of(val) if g_sat(g)]
+    good = bool(live) and any(_mapped(v) for _g, v in live) and all(_mapped(v) or (_empty(v) and _no_selection(g)) for g, v in live)
     if good:
         res.ok("Z5", "zmethod.knees", "returns map_index(points[:, 0], getPoints(...))")
     else:
